@@ -37,7 +37,7 @@ LEVEL_NOTE = ('Trusted: NumPy, Hypothesis, the descriptor builders; the '
               '(its correctness is C07\'s subject) and is cross-checked '
               'against a non-aliased in-place call.')
 DESIGN_REF = 'DESIGN.md section 5, C10'
-BUDGET = {'quick': 5000, 'thorough': 80000}
+BUDGET = {'quick': 12000, 'thorough': 100000}
 K_TOL = 4
 TOLERANCES = {
     'aliased_vs_outofplace': '|y-r| <= 4*eps(dtype)*max(|r|,|y|,|x|) per '
